@@ -922,6 +922,33 @@ func runC12(c *rt.Ctx) {
 	c12Apply(c12Cfg{rule: size.RuleEnableJSONStringForm | size.RuleEnableJSONObjectForm, maxKeys: 16, limit: 0})
 	refillRun(c, c.Pick(40000, 400000), "size")
 	guardedInputs(c, "C12", "size", []string{"10kB", "1 024 KiB", "0", "7 B", "18446744073709551615", "16 EiB", `{"value":1,"unit":"KiB"}`, `{"unit":"B","value":0,"x":[1,{"a":"b"}]}`, `"10 kB"`, `10`, `{"value":1,"unit":"KiB"`, `{"value":1,"unit":"KiB"}x`, "1e3", `"\u0031kB"`, "k", "1k", "1ki", "1kiB", "12345678", "123456789"})
+	{ // the rules passed per call change between calls (the globals stay put)
+		cfgBase := c12Cfg{rule: size.RuleEnableJSONStringForm | size.RuleEnableJSONObjectForm, maxKeys: 16}
+		c12Apply(cfgBase)
+		var steps []func(w *rt.W)
+		for _, doc := range []string{`{"value":1,"unit":"KiB"}`, `"1KiB"`, `1024`, `{"value":1,"unit":"KiB","x":1}`, `1KiB`} {
+			for _, r := range []size.Rule{size.RuleEnableJSONStringForm | size.RuleEnableJSONObjectForm, size.RuleEnableJSONObjectForm, size.RuleEnableJSONStringForm, size.RuleEnableJSONObjectForm | size.RuleDisallowUnknownKeys, 0, size.RuleDisableUnit} {
+				doc, r := doc, r
+				steps = append(steps, func(w *rt.W) {
+					v := c12Expect(doc, c12Cfg{rule: r, maxKeys: 16})
+					got, err := size.DefaultParser(doc, r)
+					gotB, errB := size.DefaultParser([]byte(doc), r)
+					w.Eval(2)
+					bad := (err == nil) != (errB == nil) || got != gotB
+					switch v.mode {
+					case vAccept:
+						bad = bad || err != nil || uint64(got) != v.value
+					case vReject:
+						bad = bad || err == nil
+					}
+					if bad {
+						w.Fail("verdict-depends-on-earlier-calls", "json", rt.Args("input", doc, "rule", int(r), "max_object_keys", 16, "max_input_length", 0, "path", "DefaultParser in a three-call history", "oracle", v.why), fmt.Sprint(uint64(got), " err=", err, " / ", uint64(gotB), " err=", errB), fmt.Sprint("mode ", v.mode, " value ", v.value), "the same (document, rule) call judged differently after other calls with other rules")
+					}
+				})
+			}
+		}
+		tripleHistories(c, steps)
+	}
 	coldStart(c, "C12", 10)
 	c12Apply(c12Cfg{rule: size.DefaultRule, maxKeys: 16, limit: 0})
 
